@@ -56,6 +56,23 @@ pub struct RangeResult<K, V> {
     pub items: Vec<(K, V)>,
 }
 
+/// Verification hook (add-only, compiled only with `--cfg ferrous_verif`):
+/// the complete internal structure of a skip list.
+#[cfg(ferrous_verif)]
+#[derive(Debug, Clone)]
+pub struct VerifDump<K, V> {
+    /// the chain of every level 0..MAX_LEVEL, as the forward pointers link it from the head
+    pub levels: Vec<Vec<(K, V)>>,
+    /// `forward.len()` of every node of level 0, in chain order
+    pub heights: Vec<usize>,
+    /// the `length` counter
+    pub length: usize,
+    /// the `level` field
+    pub level: usize,
+    /// the key -> score lookup table (iteration order)
+    pub key_index: Vec<(K, V)>,
+}
+
 // Safety: We ensure thread safety through RwLock
 unsafe impl<K: Send, V: Send> Send for SkipListInner<K, V> {}
 unsafe impl<K: Send, V: Send> Sync for SkipListInner<K, V> {}
@@ -356,6 +373,35 @@ where
         }
         
         items
+    }
+
+    /// Verification hook (add-only): walk every level and report the raw structure.
+    #[cfg(ferrous_verif)]
+    pub fn verif_dump(&self) -> VerifDump<K, V> {
+        let inner = self.inner.read().unwrap();
+        let mut levels = Vec::with_capacity(MAX_LEVEL);
+        let mut heights = Vec::new();
+        unsafe {
+            for i in 0..MAX_LEVEL {
+                let mut chain = Vec::new();
+                let mut current = (&(*inner.head).forward)[i];
+                while let Some(node) = current {
+                    chain.push(((*node).key.clone(), (*node).value.clone()));
+                    if i == 0 {
+                        heights.push((*node).forward.len());
+                    }
+                    current = (&(*node).forward).get(i).copied().flatten();
+                }
+                levels.push(chain);
+            }
+        }
+        VerifDump {
+            levels,
+            heights,
+            length: inner.length,
+            level: inner.level,
+            key_index: inner.key_index.iter().map(|(k, v)| (k.clone(), v.clone())).collect(),
+        }
     }
 
     // Helper methods
